@@ -293,6 +293,9 @@ pub fn execute_run(sc: &RunScenario, keep_world: Option<&mut Option<World>>) -> 
         Ok(w) => w,
         Err(e) => return Prepared::Skip(format!("world: {}", e)),
     };
+    if let Some(s) = sc.script.rand_seed {
+        w.set_rand_seed(s);
+    }
     // C03/C09 territory: a configuration both `target show -g` and the model must agree is usable
     let probe = w.cli(&["target", "show", "-g"]);
     if probe.code != Some(0) {
